@@ -12,6 +12,7 @@ import sympy as sp
 from ser import count_nodes, ser
 
 common.assert_repo_import()
+from ampform.dynamics import EnergyDependentWidth  # noqa: E402
 from ampform.dynamics.kmatrix import NonRelativisticKMatrix, RelativisticKMatrix  # noqa: E402
 
 out = sys.argv[1]
@@ -70,6 +71,24 @@ if sizes != [3]:
     lines.append("Definition gen_rel_param : list ((nat * nat) * expr * expr) :=\n  ["
                  + ";\n   ".join(rel) + "].\n")
     report["param"] = len(nr) + len(rel)
+
+    # the energy-dependent width, one level of evaluate(): phase space and form factor stay opaque
+    s0, m0, g0, ma0, mb0 = sp.symbols("s m0 g0 ma mb")
+    edw = EnergyDependentWidth(s0, m0, g0, ma0, mb0, L, d, phsp_factor=rhoX).evaluate()
+    lines.append(f"Definition gen_edw : expr :=\n  {ser(edw)}.\n")
+
+    # RelativisticKMatrix.formulate with MARKER arguments (argument forwarding, cf. C10)
+    Lx, dx = sp.Symbol("Lx"), sp.Symbol("dx")
+    npoles = sp.Symbol("n_poles", integer=True, positive=True)
+    marked = []
+    for hat in (False, True):
+        for n in (1, 2):
+            m = RelativisticKMatrix.formulate(n, npoles, parametrize=True, return_t_hat=hat, phsp_factor=rhoX,
+                                              angular_momentum=Lx, meson_radius=dx)
+            marked.append(f'("return_t_hat={hat}/n={n}", [' + "; ".join(ser(e) for e in m) + "])")
+    lines.append("Definition gen_marked_rel : list (string * list expr) :=\n  ["
+                 + ";\n   ".join(marked) + "].\n")
+    report["marked"] = len(marked)
 
 with open(out, "w") as f:
     f.write("\n".join(lines))
